@@ -4,16 +4,12 @@
 From CJ Require Import Base Dbl Heap Forest ForestLemmas CoreSpec CoreDefs CoreRefineBase CoreRefine
   CoreRefineDelete CoreRefineReplace CoreRefineMore CoreRefineFrame CoreRefineHistory CoreRefineObject
   CoreRefineByKey CoreRefineAddObject CoreRefineHistoryObj CoreRefineHistoryObjEx CoreRefineCreate
-  CoreLedgerGen CoreHistoryAllSteps CoreHistoryAll.
+  CoreLedgerGen CoreHistoryAllSteps CoreHistoryAllNull CoreHistoryAll.
 From CJ.gen Require Import Constants.
 From stdpp Require Import gmap.
 Implicit Types (h : heap) (F : forest) (d : rdata).
 Local Open Scope Z_scope.
 
-Lemma strs_gc_refl F (m : gmap positive bytes) : strs_gc F F m = m.
-Proof.
-  apply map_eq. intros b. rewrite strs_gc_lookup. destruct (decide (released F F b)) as [[H1 H2]|]; [done|done].
-Qed.
 
 (** a call of the array alphabet whose list model keeps the forest keeps the whole state *)
 Lemma s2_arr_unchanged S o r :
@@ -22,8 +18,6 @@ Proof.
   intros H. cbn [spec_step3]. unfold s2, spec_step2. rewrite H. cbn [fst snd]. unfold a_forest. rewrite strs_gc_refl.
   by destruct S.
 Qed.
-Lemma keep_same (A : astate) : mkAS (as_forest A) (as_next A) (as_req A) = A.
-Proof. by destruct A. Qed.
 
 (** NULL argument / the container itself as item *)
 Lemma refused_add_to_array S a i :
